@@ -826,3 +826,7 @@ impl From<Option<Time>> for ffi::Timestamp {
         .into()
     }
 }
+
+#[cfg(kani)]
+#[path = "/verif/harness/ffi_handler.rs"]
+mod verif_harness;
